@@ -721,6 +721,8 @@ class Evaluator:
         num = lambda x: isinstance(x, int) and not isinstance(x, bool)  # noqa: E731
         if not (num(a) and num(b)) and "__compare__" in self.funcs:
             return self.funcs["__compare__"](op, a, b)
+        if isinstance(a, str) and isinstance(b, str):
+            return {ast.Lt: a < b, ast.LtE: a <= b, ast.Gt: a > b, ast.GtE: a >= b}[type(op)]
         _cmp_guard(a, b)
         isn = lambda x: isinstance(x, (int, float)) and not isinstance(x, bool)  # noqa: E731
         if isn(a) and isn(b) and (isinstance(a, float) or isinstance(b, float)):
